@@ -12,6 +12,8 @@ pub enum Src {
     Torus(u8, u8),
     /// 0 empty, 1 unknot (one resolved crossing), 2 / 3 / 4 / 5 one-crossing kinks, 6 two-component unlink of resolved crossings, 7 Hopf, 8 negative Hopf
     Corner(u8),
+    /// explicit PD code
+    Pd(Vec<[usize; 4]>),
 }
 
 #[derive(Clone, Debug, Serialize, Deserialize, PartialEq)]
@@ -39,6 +41,7 @@ pub fn build_src(s: &Src) -> Result<Dg, String> {
             let mut w = w; for s in 0..n { if !t[s] { let g = if s == n - 1 { s } else { s + 1 }; w.push(g as i32); t[g - 1] = true; t[g] = true; } }
             braid_closure(n, &w).ok_or_else(|| "bad braid".to_string()) }
         Src::Torus(p, q) => { let (p, q) = ((*p as usize).clamp(2, 7), (*q as usize).clamp(1, 9)); braid_closure(p, &torus_word(p, q)).ok_or_else(|| "bad torus".to_string()) }
+        Src::Pd(pd) => Ok(Dg::from_pd(pd)),
         Src::Corner(k) => Ok(match k % 9 {
             0 => Dg::new(vec![]),
             1 => Dg::new(vec![(CT::H, [0, 1, 1, 0])]),
